@@ -1,5 +1,5 @@
 (** C19 — accessors return exactly the parts a term was built from, or the precise error *)
-From LC Require Import Model.TermOps Proofs.TermOps.
+From LC Require Import Model.TermOps Proofs.TermOps Gen.TermSrc Proofs.TermSrcTie.
 
 Theorem C19_accessors_ok : forall n b l r,
   unvar (Var n) = inr n /\ unabs (Abs b) = inr b /\ unapp (App l r) = inr (l, r) /\
@@ -39,7 +39,28 @@ Qed.
 Theorem C19_macros : forall n t args, abs_macro n t = abs_n n t /\ app_macro t args = fold_left App args t.
 Proof. intros; split; [apply abs_macro_abs_n|reflexivity]. Qed.
 
+(** The accessor laws for each of the fifteen functions REGENERATED from src/term.rs on every run
+    (Gen/TermSrc.v, lib/trans_term.py): consuming, _ref and _mut forms separately. *)
+Theorem C19_src_accessors_ok : forall n b l r,
+  (TSrc.unvar (Var n) = inr n /\ TSrc.unvar_ref (Var n) = inr n /\ TSrc.unvar_mut (Var n) = inr n) /\
+  (TSrc.unabs (Abs b) = inr b /\ TSrc.unabs_ref (Abs b) = inr b /\ TSrc.unabs_mut (Abs b) = inr b) /\
+  (TSrc.unapp (App l r) = inr (l, r) /\ TSrc.unapp_ref (App l r) = inr (l, r) /\ TSrc.unapp_mut (App l r) = inr (l, r)) /\
+  (TSrc.lhs (App l r) = inr l /\ TSrc.lhs_ref (App l r) = inr l /\ TSrc.lhs_mut (App l r) = inr l) /\
+  (TSrc.rhs (App l r) = inr r /\ TSrc.rhs_ref (App l r) = inr r /\ TSrc.rhs_mut (App l r) = inr r).
+Proof. exact src_accessors_ok. Qed.
+
+Theorem C19_src_accessors_err : forall t,
+  ((forall n, t <> Var n) -> TSrc.unvar t = inl NotVar /\ TSrc.unvar_ref t = inl NotVar /\ TSrc.unvar_mut t = inl NotVar) /\
+  ((forall b, t <> Abs b) -> TSrc.unabs t = inl NotAbs /\ TSrc.unabs_ref t = inl NotAbs /\ TSrc.unabs_mut t = inl NotAbs) /\
+  ((forall l r, t <> App l r) ->
+     (TSrc.unapp t = inl NotApp /\ TSrc.unapp_ref t = inl NotApp /\ TSrc.unapp_mut t = inl NotApp) /\
+     (TSrc.lhs t = inl NotApp /\ TSrc.lhs_ref t = inl NotApp /\ TSrc.lhs_mut t = inl NotApp) /\
+     (TSrc.rhs t = inl NotApp /\ TSrc.rhs_ref t = inl NotApp /\ TSrc.rhs_mut t = inl NotApp)).
+Proof. exact src_accessors_err. Qed.
+
 Print Assumptions C19_accessors_ok.
 Print Assumptions C19_accessors_err.
 Print Assumptions C19_lens.
 Print Assumptions C19_macros.
+Print Assumptions C19_src_accessors_ok.
+Print Assumptions C19_src_accessors_err.
